@@ -4,7 +4,8 @@ written after the source) instantiated on the table coq/gen/TypesTable.v that tr
 regenerates from the CURRENT dasp_sample/src/types.rs at every run.  Tie: the translator for the
 table; correspondence (model evaluated inside coqc vs the real types, debug and release builds)
 for everything else, plus an independent i128 oracle of the property inside the harness for the
-exhaustive 11-bit sweeps."""
+exhaustive 11-bit sweeps.  Four build configurations: dev, release, relchk (overflow checks without
+debug assertions) and dbgnochk (debug assertions without overflow checks)."""
 import json, os, sys
 import framework as F
 
@@ -13,15 +14,17 @@ import types2coq  # noqa: E402
 
 PROP = "C15"
 META = dict(
-    technique="Coq proof over a generated constant table (translator) + coqc-evaluated model vs crate correspondence in debug and release builds",
-    text="Machine-checked (Coq 8.16.1): for every row of the table generated from the eight new_sample_type! invocations, and for ANY row with MIN/MAX/TOTAL = the n-bit range and n+2 <= Rep bits, new succeeds exactly in range, From<Rep> terminates in range congruent mod 2^n, the widening From impls preserve the value, order is numeric order, and + - * and unary - on in-range operands return the exact result or panic (dev profile) / return the representative mod 2^n in [MIN, MAX] (release profile). The hand-written model is tied to the crate by running it inside coqc on the same operations as the real types in both build profiles (boundary x boundary pairs, random pairs, far out-of-range Rep values; exhaustive 2048^2 pairs for the 11-bit types in the thorough tier against an i128 oracle).",
-    note="Trusted: Coq kernel; translate/types2coq.py (table); the hand model of the macro bodies (validated by correspondence only); harness + generators. Build configuration is modelled as the two Cargo profiles (debug-assertions and overflow-checks both on / both off); mixed settings are outside the property and are shown to behave differently by two witness theorems. Axioms: none.",
+    technique="Coq proof over a generated constant table (translator) + coqc-evaluated model vs crate correspondence in the four combinations of debug-assertions and overflow-checks",
+    text="Machine-checked (Coq 8.16.1): for every row of the table generated from the eight new_sample_type! invocations, and for ANY row with MIN/MAX/TOTAL = the n-bit range and n+2 <= Rep bits, new succeeds exactly in range, From<Rep> terminates in range congruent mod 2^n, the widening From impls preserve the value, order is numeric order, and + - * and unary - on in-range operands return the exact result or panic (debug assertions on, overflow checks on or off) / never panic and return the representative mod 2^n in [MIN, MAX] (debug assertions off, overflow checks on or off). The hand-written model is tied to the crate by running it inside coqc on the same operations as the real types in four build profiles (dev, release, relchk, dbgnochk) (boundary x boundary pairs, random pairs, far out-of-range Rep values; exhaustive 2048^2 pairs for the 11-bit types in the thorough tier against an i128 oracle).",
+    note="Trusted: Coq kernel; translate/types2coq.py (table); the hand model of the macro bodies (validated by correspondence only); harness + generators. Build configuration is modelled as the two flags debug-assertions and overflow-checks; all theorems cover the four combinations (the two mixed ones since the repair of defect F8, /repo 45c5fdf). Axioms: none.",
     design="6/C15")
 HEADER = "From Dasp Require Import Sample.TypesRun."
 CHECK = "check"
 TYPES_RS = os.path.join(F.REPO, "dasp_sample", "src", "types.rs")
 TABLE_V = os.path.join(F.COQ, "gen", "TypesTable.v")
 OPNAME = {0: "add", 1: "sub", 2: "mul"}
+# cargo profile of harness/Cargo.toml -> (debug-assertions, overflow-checks)
+PROFILES = {"dev": (True, True), "release": (False, False), "relchk": (False, True), "dbgnochk": (True, False)}
 HARNESS_TYPES = ["I11", "I20", "I24", "I48", "U11", "U20", "U24", "U48"]   # type order hard-coded in harness/src/bin/c15.rs
 ROWS = []   # rows of the current table (set by main/replay), table index -> name
 
@@ -68,19 +71,31 @@ def coq_op(o):
             "new": lambda: f"ZNew {z(a[0])}", "from": lambda: f"ZFrom {z(a[0])}",
             "widen": lambda: f"ZWiden {z(a[0])} {z(a[1])}",
             "arith": lambda: f"ZArith {z(a[0])} {z(a[1])} {z(a[2])}",
+            "grid": lambda: f"ZGrid {z(a[0])} {F.zlist(a[2:2 + a[1]])} {F.zlist(a[2 + a[1]:])}",
             "neg": lambda: f"ZNeg {z(a[0])}", "cmp": lambda: f"ZCmp {z(a[0])} {z(a[1])}"}[k]()
 
 
 def build(item, ops=None):
     it = dict(item)
+    if "prof" not in it:   # replay files written before the four-configuration version
+        it["prof"] = "dev" if it.pop("dbg", True) else "release"
     if ops is not None:
         it["ops"] = ops
     name = ROWS[it["ty"]]["name"]
     if name not in HARNESS_TYPES:
         raise RuntimeError(f"type {name} of the table is unknown to the harness")
+    da, oc = PROFILES[it["prof"]]
+    it["dbg"] = da
     it["line"] = f"{HARNESS_TYPES.index(name)} ; " + " , ".join(" ".join(str(t) for t in o) for o in it["ops"])
-    it["coq"] = f"TCase {'true' if it['dbg'] else 'false'} {F.zlit(it['ty'])} [" + "; ".join(coq_op(o) for o in it["ops"]) + "]"
+    it["coq"] = (f"TCase {'true' if da else 'false'} {'true' if oc else 'false'} {F.zlit(it['ty'])} ["
+                 + "; ".join(coq_op(o) for o in it["ops"]) + "]")
     return it
+
+
+def expand_grid(op):
+    """the single `arith` ops a grid op stands for, in the harness's order"""
+    n = op[2]
+    return [["arith", op[1], a, b] for a in op[3:3 + n] for b in op[3 + n:]]
 
 
 def isqrt(n):
@@ -140,10 +155,10 @@ def gen_cases(rng, tier, rows):
     thorough = tier == "thorough"
     items = []
 
-    def emit(dbg, ty, ops, per=64, heavy=False):
+    def emit(prof, ty, ops, per=64, heavy=False):
         per = 6 if heavy else per
         for i in range(0, len(ops), per):
-            items.append(build(dict(dbg=dbg, ty=ty, ops=ops[i:i + per], heavy=heavy)))
+            items.append(build(dict(prof=prof, ty=ty, ops=ops[i:i + per], heavy=heavy)))
 
     for ty, row in enumerate(rows):
         r = rng.fork(f"ty{ty}")
@@ -163,11 +178,11 @@ def gen_cases(rng, tier, rows):
         repv = lambda vs: [v for v in dict.fromkeys(vs) if rlo <= v <= rhi]
         if thorough and row["rep"][1] == 16:
             mid = list(range(rlo, rhi + 1))      # every i16 value through From<i16> and new
-        for dbg in (True, False):
-            emit(dbg, ty, [["profile"], ["consts"], ["srcs"]])
-            emit(dbg, ty, [["new", v] for v in repv(B + near + far + mid)], per=256)
-            emit(dbg, ty, [["from", v] for v in repv(B + near + mid)], per=256)
-            emit(dbg, ty, [["from", v] for v in repv(far)], heavy=wide)
+        for prof, (dbg, oc) in PROFILES.items():
+            emit(prof, ty, [["profile"], ["consts"], ["srcs"]])
+            emit(prof, ty, [["new", v] for v in repv(B + near + far + mid)], per=256)
+            emit(prof, ty, [["from", v] for v in repv(B + near + mid)], per=256)
+            emit(prof, ty, [["from", v] for v in repv(far)], heavy=wide)
             # widening From: boundary values of every source, plus values just outside the source
             wops = []
             for k, f in enumerate(row["froms"]):
@@ -180,21 +195,26 @@ def gen_cases(rng, tier, rows):
                     sb = boundary(srow, r, 24) + [r.range(slo, shi) for _ in range(8)]
                 sb = [v for v in dict.fromkeys(sb) if slo <= v <= shi] + [slo - 1, shi + 1]
                 wops += [["widen", k, v] for v in sb]
-            emit(dbg, ty, wops)
-            # arithmetic: every pair of boundary values x {add, sub, mul}; random pairs
+            emit(prof, ty, wops)
+            # arithmetic: every pair of boundary values x {add, sub, mul} (one `grid` op per 16 x |B| block:
+            # the model and the harness each hash their 16*|B| observations), random pairs as single ops
             for o in (0, 1, 2):
                 heavy = wide and o == 2 and not dbg
-                pairs = [(a, b) for a in B for b in B]
-                if heavy:   # each release 48-bit product walks up to 2^15 loop iterations in the model
-                    keep = 260 if not thorough else 1500
-                    pairs = [pairs[r.below(len(pairs))] for _ in range(keep)]
-                nrand = (40 if heavy else 700) * (6 if thorough else 1)
+                pairs = []
+                if heavy:   # each 48-bit product without debug assertions walks up to 2^15 loop iterations in the model
+                    keep = 130 if not thorough else 700
+                    allp = [(a, b) for a in B for b in B]
+                    pairs = [allp[r.below(len(allp))] for _ in range(keep)]
+                else:
+                    gops = [["grid", o, len(B[i:i + 16])] + B[i:i + 16] + B for i in range(0, len(B), 16)]
+                    emit(prof, ty, gops, per=1)
+                nrand = (20 if heavy else 350) * (6 if thorough else 1)
                 pairs += [(rand_in(row, r), rand_in(row, r)) for _ in range(nrand)]
-                emit(dbg, ty, [["arith", o, a, b] for a, b in pairs], per=128, heavy=heavy)
-            emit(dbg, ty, [["neg", v] for v in B + [rand_in(row, r) for _ in range(40)]])
-            cp = [(a, b) for a in B[:20] for b in B] + [(rand_in(row, r), rand_in(row, r)) for _ in range(200)]
+                emit(prof, ty, [["arith", o, a, b] for a, b in pairs], per=128, heavy=heavy)
+            emit(prof, ty, [["neg", v] for v in B + [rand_in(row, r) for _ in range(40)]])
+            cp = [(a, b) for a in B[:8] for b in B] + [(rand_in(row, r), rand_in(row, r)) for _ in range(100)]
             cp += [(a, a) for a in B] + [(lo - 1, 0), (0, hi + 1)]
-            emit(dbg, ty, [["cmp", a, b] for a, b in cp], per=256)
+            emit(prof, ty, [["cmp", a, b] for a, b in cp], per=256)
     return items
 
 
@@ -264,10 +284,10 @@ def is_nontrivial(row, op):
 
 
 def exhaustive(rep, bins, rows, dist):
-    """thorough tier: every pair of 11-bit values x {add, sub, mul} x both profiles against the
+    """thorough tier: every pair of 11-bit values x {add, sub, mul} x the four configurations against the
     i128 oracle inside the harness. Returns the number of evaluations."""
     total = 0
-    for dbg in (True, False):
+    for prof, (dbg, oc) in PROFILES.items():
         lines, meta = [], []
         for ty in [i for i, x in enumerate(rows) if x["name"] in ("I11", "U11")]:
             lo, hi = rows[ty]["min"], rows[ty]["max"]
@@ -276,9 +296,9 @@ def exhaustive(rep, bins, rows, dist):
                 for a in range(lo, hi + 1, step):
                     lines.append(f"E {HARNESS_TYPES.index(rows[ty]['name'])} {o} {a} {min(hi, a + step - 1)}")
                     meta.append((ty, o))
-        rc, outl, err = F.run_bin_parallel(bins[dbg], lines)
+        rc, outl, err = F.run_bin_parallel(bins[prof], lines)
         if rc != 0 or len(outl) != len(lines):
-            rep.violation(f"exhaustive_{'debug' if dbg else 'release'}", {"kind": "exhaustive sweep could not be run", "stderr": err[-2000:]}, no_input=True)
+            rep.violation(f"exhaustive_{prof}", {"kind": "exhaustive sweep could not be run", "stderr": err[-2000:]}, no_input=True)
             continue
         n_here, bad_here = 0, []
         for (ty, o), l, ol in zip(meta, lines, outl):
@@ -290,19 +310,36 @@ def exhaustive(rep, bins, rows, dist):
             if int(t[2]) != 0:
                 bad_here.append((ty, o, l, ol))
         total += n_here
-        dist[f"exhaustive_pairs_{'debug' if dbg else 'release'}"] = n_here
+        dist[f"exhaustive_pairs_{prof}"] = n_here
         if n_here != 2 * 3 * 2048 * 2048:
-            rep.violation(f"exhaustive_count_{'debug' if dbg else 'release'}",
+            rep.violation(f"exhaustive_count_{prof}",
                           {"kind": "exhaustive sweep did not cover 2 types x 3 ops x 2048^2 pairs", "covered": n_here}, no_input=True)
         for ty, o, l, ol in bad_here[:2]:
             t = ol.split()
             a, b = (int(t[3]), int(t[4])) if len(t) == 7 else (None, None)
-            rep.violation(f"exhaustive_{'debug' if dbg else 'release'}_{rows[ty]['name']}_{OPNAME[o]}", {
+            rep.violation(f"exhaustive_{prof}_{rows[ty]['name']}_{OPNAME[o]}", {
                 "kind": "11-bit exhaustive sweep: the real type disagrees with the exact/wrapped result the property prescribes",
-                "type": rows[ty]["name"], "profile": "debug" if dbg else "release", "op": OPNAME[o], "a": a, "b": b,
-                "observed": ol, "harness_line": l,
-                "case": {"dbg": dbg, "ty": ty, "ops": [["arith", o, a, b]]} if a is not None else None})
+                "type": rows[ty]["name"], "profile": prof, "debug_assertions": dbg, "overflow_checks": oc,
+                "op": OPNAME[o], "a": a, "b": b, "observed": ol, "harness_line": l,
+                "case": {"prof": prof, "ty": ty, "ops": [["arith", o, a, b]]} if a is not None else None})
     return total
+
+
+def flat_obs(it, ol_full):
+    """(op, observation) pairs of a case, grids expanded into their single arith ops (needs the `full` output)"""
+    out = []
+    for op, ob in zip(it["ops"], F.norm_obs_line(ol_full)):
+        if op[0] == "grid":
+            sub = expand_grid(op)
+            if not ob or ob[0] != 11 or len(ob) != 1 + 2 * len(sub):
+                out.append((op, ob))
+                continue
+            for k, sop in enumerate(sub):
+                t, v = ob[1 + 2 * k], ob[2 + 2 * k]
+                out.append((sop, [0] if t == 0 else [t, v]))
+        else:
+            out.append((op, ob))
+    return out
 
 
 def main(rep, tier, seed):
@@ -316,14 +353,14 @@ def main(rep, tier, seed):
                                       "log_tail": rlog[-3000:]}, no_input=True)
         return finish(rep, info, tier, 0, 0, 0, {}, [], [])
     bins = {}
-    for dbg in (True, False):
-        ok, blog, path = F.harness_build("c15", release=not dbg)
+    for prof in PROFILES:
+        ok, blog, path = F.harness_build("c15", profile=prof)
         if not ok:
-            rep.violation("harness_build_" + ("debug" if dbg else "release"),
+            rep.violation("harness_build_" + prof,
                           {"kind": "harness does not build against /repo (a public item the property speaks about is missing or changed type)",
                            "log": blog[-4000:]}, no_input=True)
             return finish(rep, info, tier, 0, 0, 0, {}, [], [])
-        bins[dbg] = path
+        bins[prof] = path
     table_rows = rows if rows is not None else fallback_rows()
     ROWS[:] = table_rows
     corpus = load_corpus()
@@ -337,58 +374,70 @@ def main(rep, tier, seed):
     items = [items[i] for i in order]
     n_eval, nontriv, hist, bad_total, found_input = 0, set(), {}, 0, False
     samples = []
-    for dbg in (True, False):
-        pname = "debug" if dbg else "release"
-        part = [it for it in items if it["dbg"] == dbg]
-        outl, bad, errors = F.correspond(bins[dbg], part, HEADER, CHECK, "c15_" + pname)
+    for prof, (dbg, oc) in PROFILES.items():
+        part = [it for it in items if it["prof"] == prof]
+        outl, bad, errors = F.correspond(bins[prof], part, HEADER, CHECK, "c15_" + prof, per_file=400)
         for name, msg in errors:
-            rep.violation(f"correspondence_error_{pname}_" + name.replace("/", "_"),
+            rep.violation(f"correspondence_error_{prof}_" + name.replace("/", "_"),
                           {"kind": "correspondence could not be evaluated", "where": name, "log": msg}, no_input=True)
         if errors:
             continue
-        samples.append(part[0]["line"][:300] + "  =>  " + outl[0][:300])
+        # the same cases with every grid observation spelled out, for the direct verdict of the property
+        rc, full, err = F.run_bin_parallel(bins[prof], [it["line"] for it in part], args=("full",))
+        if rc != 0 or len(full) != len(part):
+            rep.violation(f"harness_full_{prof}", {"kind": "harness (full observations) could not be run", "stderr": err[-1500:]}, no_input=True)
+            continue
+        samples.append(f"[{prof}] " + part[0]["line"][:240] + "  =>  " + outl[0][:240])
         verdict_bad = []
-        for idx, (it, ol) in enumerate(zip(part, outl)):
+        for idx, (it, ol) in enumerate(zip(part, full)):
             row = table_rows[it["ty"]]
-            obs = F.norm_obs_line(ol)
-            for op, ob in zip(it["ops"], obs):
-                key = f"{pname}:{row['name']}:{op[0]}" + (":" + OPNAME[op[1]] if op[0] == "arith" else "")
+            for op, ob in flat_obs(it, ol):
+                key = f"{prof}:{op[0]}" + (":" + OPNAME[op[1]] if op[0] == "arith" else "")
                 hist[key] = hist.get(key, 0) + 1
+                tk = f"type:{row['name']}"
+                hist[tk] = hist.get(tk, 0) + 1
                 n_eval += 1
                 if is_nontrivial(row, op):
-                    nontriv.add((dbg, it["ty"]) + tuple(op))
+                    nontriv.add((prof, it["ty"]) + tuple(op))
                 if ob and ob[0] == 8:
-                    hist[f"{pname}:panics"] = hist.get(f"{pname}:panics", 0) + 1
+                    hist[f"{prof}:panics"] = hist.get(f"{prof}:panics", 0) + 1
                 msg = verdict(row, dbg, op, ob)
                 if msg and len(verdict_bad) < 3 and idx not in [v[0] for v in verdict_bad]:
                     verdict_bad.append((idx, op, ob, msg))
         bad_total += len(bad)
+
+        def fails(c):
+            o, b, e = F.correspond(bins[prof], [c], HEADER, CHECK, "c15_shrink")
+            return bool(b) and not e
+
         for idx in bad[:3]:
             it = part[idx]
-
-            def fails(c):
-                o, b, e = F.correspond(bins[dbg], [c], HEADER, CHECK, "c15_shrink")
-                return bool(b) and not e
-
+            # a failing grid is first spelled out into its single arith operations
+            ops = [sop for op in it["ops"] for sop in (expand_grid(op) if op[0] == "grid" else [op])]
+            if len(ops) != len(it["ops"]):
+                it = build(it, ops)
+                if not fails(it):   # (hash disagreement that the spelled-out observations do not reproduce)
+                    it = part[idx]
             small = F.shrink_ops(it, build, fails)
-            rc, out, _ = F.run_bin(bins[dbg], [small["line"]])
+            rc, out, _ = F.run_bin(bins[prof], [small["line"]], args=("full",))
             _, model = F.coq_eval("c15", HEADER, f"run_case ({small['coq']})")
             found_input = True
-            rep.violation(f"{pname}_case{idx}", {
+            rep.violation(f"{prof}_case{idx}", {
                 "kind": "model/implementation disagreement: the real sample type does not behave as the model proved to satisfy C15",
-                "type": table_rows[small["ty"]]["name"], "profile": pname,
-                "case": {k: small[k] for k in ("dbg", "ty", "ops")},
+                "type": table_rows[small["ty"]]["name"], "profile": prof, "debug_assertions": dbg, "overflow_checks": oc,
+                "case": {k: small[k] for k in ("prof", "ty", "ops")},
                 "harness_line": small["line"], "implementation_observations": out, "model_observations": model[-3000:],
                 "replay": "./check.py C15 --replay <this file>"})
         for idx, op, ob, msg in verdict_bad:
             if idx in bad[:3]:
                 continue
             found_input = True
-            rep.violation(f"{pname}_verdict{idx}", {
+            rep.violation(f"{prof}_verdict{idx}", {
                 "kind": "property verdict failed on an observation of the real type", "message": msg,
-                "type": table_rows[part[idx]["ty"]]["name"], "profile": pname,
-                "case": {"dbg": dbg, "ty": part[idx]["ty"], "ops": [op]}, "observed": ob})
+                "type": table_rows[part[idx]["ty"]]["name"], "profile": prof, "debug_assertions": dbg, "overflow_checks": oc,
+                "case": {"prof": prof, "ty": part[idx]["ty"], "ops": [op]}, "observed": ob})
     dist = {"ops_histogram": hist, "corpus_cases": len(corpus), "harness_lines": len(items),
+            "profiles": {k: {"debug_assertions": v[0], "overflow_checks": v[1]} for k, v in PROFILES.items()},
             "table_rewritten_this_run": rewritten}
     if tier == "thorough":
         n_eval += exhaustive(rep, bins, table_rows, dist)
@@ -420,16 +469,16 @@ def finish(rep, info, tier, ncases, n, nontriv, dist, samples, bad=0):
         "trusted_base": F.TRUSTED_COMMON + [
             "translate/types2coq.py: reads Rep/eq/min/max/total/from-lists/impl_neg! of the eight invocations (its output is cross-checked against MIN/MAX/EQUILIBRIUM and the From/Neg impls the harness can call)",
             "the hand-written model of the macro bodies (new, wrap_overflow, wrap_overflow_once, Add/Sub/Mul/Neg, impl_from!) — validated through the correspondence only",
-            "build configuration = the two Cargo profiles of harness/Cargo.toml (dev: debug-assertions + overflow-checks on; release: both off)",
+            "build configuration = the two flags debug-assertions / overflow-checks; the four combinations are the cargo profiles dev, release, relchk, dbgnochk of harness/Cargo.toml",
             "axioms: none (every theorem of props/C15.v is closed under the global context)"],
         "theorems": th, "axioms_reported": info.get("axioms", []),
         "evaluations": n, "cases": ncases, "distinct_nontrivial": nontriv,
-        "rule": "per type and per profile: every pair of ~64 boundary values x {add, sub, mul} (48-bit release mul: a sample, the model walks the wrap loop), random structured pairs, new/From<Rep> on in-range, near-range, multiples of TOTAL, Rep extremes and random Rep values, every widening From on the source's boundary values, negation of every boundary value, comparisons; thorough adds every i16 value through new/From for the 11-bit types and all 2048^2 pairs x 3 ops x 2 types x 2 profiles against the in-harness i128 oracle. non-trivial = distinct operation whose exact result (or constructor argument) is outside [MIN, MAX], i.e. the panic / wrap branch is taken",
+        "rule": "per type and per profile (dev, release, relchk, dbgnochk): every pair of ~64 boundary values x {add, sub, mul} (as grid ops: model and harness hash their observations; the direct verdict reads them all; 48-bit mul without debug assertions: a sample, the model walks the wrap loop), random structured pairs, new/From<Rep> on in-range, near-range, multiples of TOTAL, Rep extremes and random Rep values, every widening From on the source's boundary values, negation of every boundary value, comparisons; thorough adds every i16 value through new/From for the 11-bit types and all 2048^2 pairs x 3 ops x 2 types x 4 profiles against the in-harness i128 oracle. non-trivial = distinct operation whose exact result (or constructor argument) is outside [MIN, MAX], i.e. the panic / wrap branch is taken",
         "samples": samples, "input_distribution": dist, "disagreements": bad,
-        "explanation": "theorems: the model satisfies C15 for every row of the generated table (and for any well-formed row); tie: translator for the table, model run by coqc on the same operations as the real types in both profiles, all observations compared exactly, plus a direct python/i128 verdict of the property on every observation",
+        "explanation": "theorems: the model satisfies C15 for every row of the generated table (and for any well-formed row); tie: translator for the table, model run by coqc on the same operations as the real types in the four profiles, all observations compared exactly, plus a direct python/i128 verdict of the property on every observation",
     }
     return rep.finish("proof", cov, [
-        "only the two standard profiles are claimed; with debug-assertions on but overflow-checks off a 16-bit Rep product can wrap back into range unnoticed (witness theorem c15_mixed_profile_silent_wrap)",
+        "build configuration is the pair (debug-assertions, overflow-checks); other codegen options are assumed not to change integer semantics",
         "the model's cfg parameter is checked against the harness binary's actual cfg!(debug_assertions) and a runtime overflow-check probe",
         "U11 has a Neg impl although unsigned and I20 has none although signed: the negation theorems are stated for the rows with an impl"])
 
@@ -440,14 +489,15 @@ def replay(path):
     rows = rows or fallback_rows()
     ROWS[:] = rows
     it = build(j["case"])
-    ok, blog, binpath = F.harness_build("c15", release=not it["dbg"])
-    rc, out, _ = F.run_bin(binpath, [it["line"]])
+    ok, blog, binpath = F.harness_build("c15", profile=it["prof"])
+    rc, out, _ = F.run_bin(binpath, [it["line"]], args=("full",))
     _, model = F.coq_eval("c15", HEADER, f"run_case ({it['coq']})")
-    print("case:", it["line"], "(debug build)" if it["dbg"] else "(release build)")
+    da, oc = PROFILES[it["prof"]]
+    print("case:", it["line"], f"(profile {it['prof']}: debug-assertions {'on' if da else 'off'}, overflow-checks {'on' if oc else 'off'})")
     print("implementation:", out)
     print("model:", model)
     o, bad, errs = F.correspond(binpath, [it], HEADER, CHECK, "c15_replay")
-    vb = [verdict(rows[it["ty"]], it["dbg"], op, ob) for op, ob in zip(it["ops"], F.norm_obs_line(out[0]) if out else [])]
+    vb = [verdict(rows[it["ty"]], da, op, ob) for op, ob in (flat_obs(it, out[0]) if out else [])]
     vb = [m for m in vb if m]
     for m in vb:
         print("verdict:", m)
